@@ -41,5 +41,9 @@ pub fn autoplay(millis: u64) {
             None => break,
         };
         game.push_history(next_move);
+        // The per-ply state stack holds 512 entries and the search needs room above the game
+        if game.len() >= 400 {
+            break;
+        }
     }
 }
